@@ -317,11 +317,13 @@ impl Gen {
             })
             .collect();
         // a quarter of the programs end by consuming the rest through internal iteration
-        match r.below(12) {
+        match r.below(14) {
             0 => v.push(ItOp::RestForEach),
             1 => v.push(ItOp::RestCount),
             2 => v.push(ItOp::RestLast),
             3 => v.push(if r.chance(1, 2) { ItOp::RestMin } else { ItOp::RestMax }),
+            4 => v.push(ItOp::RestCollect),
+            5 => v.push(ItOp::RestRevEach),
             _ => {}
         }
         v
@@ -457,7 +459,7 @@ impl Gen {
                 let mut prog = self.prog(n, dbl);
                 let late = self.late_writes && fam == Fam::IterMut && self.rng.chance(1, 12);
                 if late && !matches!(prog.last(), Some(ItOp::RestLast)) {
-                    prog.retain(|o| !matches!(o, ItOp::RestForEach | ItOp::RestCount | ItOp::RestLast | ItOp::RestMin | ItOp::RestMax));
+                    prog.retain(|o| !matches!(o, ItOp::RestForEach | ItOp::RestCount | ItOp::RestLast | ItOp::RestMin | ItOp::RestMax | ItOp::RestCollect | ItOp::RestRevEach));
                     prog.push(ItOp::RestLast);
                 }
                 Step::IterMut { prog, via, end: if fam == Fam::IterMut { GEnd::Drop } else { GEnd::Forget }, rule, late }
